@@ -21,7 +21,7 @@ T6 = {
    "C06 body-then-records: exact-records/order", "missed (the consumer mode was always run to the end of the stream)",
    "body-then-records: k records as a file body, the rest through receive_record(), q records queued at attach"),
  "agent6-C07-listener-skipped-if-fired": ("C07", "the peer connects to the party's listener and finishes the handshake before the party's own connect() call",
-   "C07 direct-r-listens / both-listen-race ...: same-link/winner-not-returned", "@C07", ""),
+   "C07 direct-r-listens / both-listen-race ...: same-link/winner-not-returned", "reported", ""),
  "agent6-C08-stop-defers-one-turn": ("C08", "close() while the first connection is in its WebSocket negotiation (TCP up, no answer yet)",
    "C08 solo-*-close-while-negotiating: verdict (ServerConnectionError instead of LonelyError)",
    "missed (connecting was one atomic event)", "tcpconn / negabort events: the first connection in two steps, stop in between"),
